@@ -461,12 +461,12 @@ Theorem C10_queries_are_the_raw_pointers_rep : forall h t, WF.WF t -> HeapProofs
 Proof. exact GlueNav.queries_are_pointers. Qed.
 Print Assumptions C10_queries_are_the_raw_pointers_rep.
 
-(* Glue (theories/Glue/GluePreorder.v): the parent component of a row of the mutation machine's flattening
+(* Glue (theories/Glue/GluePreNav.v): the parent component of a row of the mutation machine's flattening
    is the parent this model finds for that node *)
-From NT Require SurgeryFacts GluePreorder.
+From NT Require SurgeryFacts GluePreNav.
 
 Theorem C10_parent_is_the_rows_parent : forall f, NoDup (ids f) -> ~ In 0 (ids f) -> forall r, In r (SurgeryFacts.rows 0 f) ->
   exists c, locate_f (SurgeryFacts.r_id r) f = Some c /\ rid (c_self c) = SurgeryFacts.r_id r /\ rinfo (c_self c) = SurgeryFacts.r_info r /\
             SurgeryFacts.r_par r = match q_parent c with Some p => rid p | None => 0 end.
-Proof. exact GluePreorder.row_parent_is_nav_parent. Qed.
+Proof. exact GluePreNav.row_parent_is_nav_parent. Qed.
 Print Assumptions C10_parent_is_the_rows_parent.
